@@ -166,13 +166,14 @@ def rule_r7(ctx: Ctx) -> None:
     from ..absint import Evaluator, Raised, construct, ctor_hook
     from ..fold import Folder, Unfoldable
 
-    ctx.rule("C17.R7", "a line is stamped only on an error whose file is not yet known (an error that arrives with the path of another file - a dependency - never gets a line of this file); a path is stamped only when unknown; a known line is never changed", min_instances=4)
+    ctx.rule("C17.R7", "a line is stamped only on an error whose file is not yet known (an error that arrives with the path of another file - a dependency - never gets a line of this file); a path is stamped only when unknown; a known line is never changed", min_instances=2)
     err = ctx.cls("_error.Error")
     OTHER = "/deps/Other.1.0.dsdl"
     n = 0
     seen: Set[Tuple[str, int]] = set()
-    for mod_name in ctx.repo.with_satellites(("_parser", "_dsdl_definition", "_namespace_reader", "_data_type_builder")):
-        mod = ctx.repo.module(mod_name)
+    any_line = any_path = False
+    for mod_name in sorted(ctx.repo.modules):
+        mod = ctx.repo.modules[mod_name]
         fns = list(mod.functions.values()) + [m for c in mod.classes.values() for m in c.methods.values()]
         # a handler is reported once, at the function that lexically contains it (helpers are expanded into their callers)
         fns.sort(key=lambda f: 0 if any(isinstance(x, ast.ExceptHandler) for x in ast.walk(f.node)) else 1)
@@ -231,9 +232,12 @@ def rule_r7(ctx: Ctx) -> None:
                 if results["line known, file not yet"][1] != 3:
                     bad.append({"incoming": "line 3, no path", "line after": repr(results["line known, file not yet"][1])})
                 n += 1
+                any_line, any_path = any_line or stamps_line, any_path or stamps_path
                 ctx.check(not bad, fn.short, "handler stamping %s" % " and ".join(x for x, y in (("the line", stamps_line), ("the path", stamps_path)) if y), "the (path, line) pair of an error always refers to one file: a stamp never completes the location of another file with a value from this one", "%s:%d" % (fn.module.relpath, h.lineno), bad)
-    if n < 4:
-        raise AnalysisError("only %d location-stamping handlers found" % n)
+    if not (any_line and any_path):
+        # (how many handlers there are is the repository's business - one shared helper or one per reader; that a line is
+        # stamped somewhere and a path somewhere is what the rule needs to have something to decide)
+        raise AnalysisError("%d location-stamping handlers found, %s" % (n, "none stamps a line" if not any_line else "none stamps a path"))
 
 
 
